@@ -583,7 +583,8 @@ def main(chk: core.Check) -> int:
     chk.assumptions += ["decompression and basket I/O, the stock uproot-custom element readers (contract: read exactly their own encoding) and awkward record construction are outside the model",
                         "the independent decoder cannot read a few branches (listed in the evidence); for those only the framing-mode model and the synthetic three-way correspondence apply",
                         "the reader assumes (as BES3 writers guarantee): empty array name, every object header carries a byte count, the array's own TObject is not referenced"]
-    chk.prove()
+    core.regen_rootpy(chk)
+    chk.prove(modules=["C01", "RootTie"])
     try:
         synthetic(chk, 1500 if thorough else 200)
         digi(chk)
